@@ -150,26 +150,27 @@ Definition fail (clause cls : string) : val := VL [VT "FAIL"; VT clause; VT cls]
    - the result of a lifecycle call on a store that is already closed/finalized is not compared
      (the property does not say what a second Finalize/Close answers), only its effect is;
    - once the map is frozen (closed or finalized) the file must not change. *)
-Fixpoint check_steps (f : front) (o : wopts) (roots : list bytes) (cls : string)
+Fixpoint check_steps (f : front) (o : wopts) (roots : list bytes) (hlen : N) (cls : string)
          (m : mstate) (ops : list xop) (obs : list val) : val :=
   match ops, obs with
   | XReopen :: ops', ob :: obs' =>
     (* reopening the file a session left behind succeeds and the store holds the same blocks, open again
        (C04_refines_map_resumed); Resume may rewrite the CARv2 header, so the file may change here *)
-    if val_eqb (vnth 0 ob) (VL [VT "nil"]) then check_steps f o roots cls (mkm (m_blocks m) false false) ops' obs'
+    if val_eqb (vnth 0 ob) (VL [VT "nil"]) then check_steps f o roots hlen cls (mkm (m_blocks m) false false) ops' obs'
+    else if w_maxh o <? hlen then VT "ok"     (* Resume cannot read a header over MaxAllowedHeaderSize *)
     else fail "reopen-refused" cls
   | XDelete _ :: ops', ob :: obs' | XHashOnRead _ :: ops', ob :: obs' =>
     (* stutter steps: the fixed answer, and the file as it was *)
     if vbool (vnth 1 ob) then fail "stutter-step-changed-file" cls
     else if negb (val_eqb (vnth 0 ob) (v_out (stutter_res (match ops with x :: _ => x | [] => XReopen end))))
     then fail "stutter-step-result" cls
-    else check_steps f o roots cls m ops' obs'
+    else check_steps f o roots hlen cls m ops' obs'
   | XOp op :: ops', ob :: obs' =>
-    let '(m', expect) := spec_step f o roots m op in
+    let '(m', expect) := spec_step_lim f o roots hlen m op in
     let got := vnth 0 ob in
     let changed := vbool (vnth 1 ob) in
     if m_frozen m && changed then fail "file-changed-after-finalize" cls
-    else if is_lifecycle op && m_frozen m then check_steps f o roots cls m' ops' obs'
+    else if is_lifecycle op && m_frozen m then check_steps f o roots hlen cls m' ops' obs'
     else
       let same := match op with
                   | OpKeys => val_eqb (canon_keys (v_out expect)) (canon_keys got)
@@ -178,7 +179,7 @@ Fixpoint check_steps (f : front) (o : wopts) (roots : list bytes) (cls : string)
       (* storage.IsNotFound must say "not found" exactly for the lookups of keys the map does not hold *)
       let want_nf := match expect with OErr ENotFound => true | _ => false end in
       if same && negb (Bool.eqb want_nf (vbool (vnth 2 ob))) then fail "notfound-classification" cls
-      else if same then check_steps f o roots cls m' ops' obs'
+      else if same then check_steps f o roots hlen cls m' ops' obs'
       else fail (String.append (op_name op) "-differs-from-map") cls
   | _, _ => VT "ok"
   end.
@@ -190,7 +191,7 @@ Definition prop_storemap (input obs : val) : val :=
   if negb (tag_is (vnth 0 obs) "nil") then VT "ok"      (* the store could not be opened: n/a *)
   else
     let cls := String.append (if kn =? 0 then "blockstore" else if kn =? 5 then "blockstore-callers-file" else "storage") (if w_v1 o then "-v1" else "-v2") in
-    check_steps (v_front kn) o roots cls m_empty (v_xops (vL (vnth 4 input))) (vL (vnth 1 obs)).
+    check_steps (v_front kn) o roots (blen (enc_header (roots_opt (is_nil_tag (vnth 2 input)) roots) 1)) cls m_empty (v_xops (vL (vnth 4 input))) (vL (vnth 1 obs)).
 
 (* ==== kind "deferred" (C20) ===============================================================================
    input  = (target v1given opts roots ops pre) target: 0 path | 1 stream; roots: (cid ...) or tnil;
